@@ -49,10 +49,13 @@ CONSTANTS G,          \* grid 0..G x 0..G
           Drawings,   \* drawings (= exported cases) per chosen bag
           Kinds,      \* catalogue families in use
           MutSeq,     \* sequence of mutation names; repeated names weight the choice in simulation
-          Modes,      \* relations of a new ring to an earlier one: subset of {"any","inside","around","apart","touch","same"}
+          ModeSeq,    \* relations of a new ring to an earlier one, sequence over {"any","within","inside","around","apart",
+                      \* "touch","touchout","touchin","chain","same"}; repeated names weight the choice in simulation
           MaxSegs,    \* bound on the number of segments of a case
           Styles,     \* drawing styles in use
-          Theorems    \* TRUE: evaluate the A-layer consistency invariants (design check only)
+          RolePats,   \* role patterns <<a, b>>: member i gets role number (a*i + b) mod 4 of <<outer, inner, "", foo>>
+          Theorems,   \* TRUE: evaluate the A-layer consistency invariants (design check only)
+          Tiles       \* TRUE: export only bags that can be tiled (motifs), with the numbers for the chain
 
 (* ------------------------------------------------------------------ points, segments *)
 Lt(p, q) == p[1] < q[1] \/ (p[1] = q[1] /\ p[2] < q[2])
@@ -182,26 +185,25 @@ JudgeRings(ways, exp, rings, W) ==
            [] n = "region" -> {IdxNum(I) : I \in mp} # exp.region
            [] n = "segset" -> {rs[i].s : i \in 1..m} # Segments(ways)}
 
-(* requirements on one run that delivered rings for a valid arrangement *)
-JudgeRunValid(ways, roles, exp, rings, run) ==
-  LET ids == RingIds(rings)
-      rs == RingSegSeq(rings)
-      nout == Len(rings)
-      nin == Cardinality(ids) - nout
+(* wrong roles: for every ring segment the roles of the input ways that contain it; which copy of a segment
+   survives the cancellation is not determined, hence a range <<lo, hi>> *)
+RoleRange(ways, roles, rings) ==
+  LET rs == RingSegSeq(rings)
       inocc == WayOcc(ways)
-      (* wrong roles: for every ring segment the roles of the input ways that contain it (which copy of a
-         segment survives the cancellation is not determined: range) *)
-      cand(i) == {roles[x[1]] : x \in {y \in inocc : OccSeg(ways, y) = rs[i].s}}
-      lo == Cardinality({i \in 1..Len(rs) : cand(i) # {} /\ \A ro \in cand(i) : WrongRole(ro, rs[i].r[2] = 0)})
-      hi == Cardinality({i \in 1..Len(rs) : \E ro \in cand(i) : WrongRole(ro, rs[i].r[2] = 0)})
-  IN {n \in {"not_assembled", "count_rings", "count_touch", "count_problems", "count_roles"} :
+      cand == [i \in 1..Len(rs) |-> {roles[x[1]] : x \in {y \in inocc : OccSeg(ways, y) = rs[i].s}}]
+  IN <<Cardinality({i \in 1..Len(rs) : cand[i] # {} /\ \A ro \in cand[i] : WrongRole(ro, rs[i].r[2] = 0)}),
+       Cardinality({i \in 1..Len(rs) : \E ro \in cand[i] : WrongRole(ro, rs[i].r[2] = 0)})>>
+
+(* requirements on one run that delivered rings for a valid arrangement (nout / nin rings, role range rr) *)
+JudgeRunValid(exp, nout, nin, rr, run) ==
+  {n \in {"not_assembled", "count_rings", "count_touch", "count_problems", "count_roles"} :
         CASE n = "not_assembled" -> ~(run.ret /\ run.area)
           [] n = "count_rings" -> run.st.outer_rings # nout \/ run.st.inner_rings # nin
           [] n = "count_touch" -> run.st.touching_rings # exp.ntouch \/ (run.pr /\ run.rep.touching_ring # exp.ntouch)
           [] n = "count_problems" -> \/ run.st.intersections # 0 \/ run.st.open_rings # 0
                                      \/ (run.pr /\ (run.rep.intersection # 0 \/ run.rep.ring_not_closed # 0))
           [] n = "count_roles" -> IF run.pr /\ run.entry = "rel"
-                                  THEN \/ run.st.wrong_role < lo \/ run.st.wrong_role > hi
+                                  THEN \/ run.st.wrong_role < rr[1] \/ run.st.wrong_role > rr[2]
                                        \/ run.rep.role_should_be_outer + run.rep.role_should_be_inner # run.st.wrong_role
                                   ELSE run.st.wrong_role # 0}
 
@@ -224,38 +226,58 @@ JudgeRunInvalid(exp, run) ==
 Judge(ways, roles, exp, rings, runs, W) ==
   IF exp.valid
   THEN IF rings = <<>> THEN {"not_assembled"}
-       ELSE JudgeRings(ways, exp, rings, W) \cup UNION {JudgeRunValid(ways, roles, exp, rings, runs[k]) : k \in 1..Len(runs)}
+       ELSE LET nout == Len(rings)
+                nin == Cardinality(RingIds(rings)) - nout
+                rr == RoleRange(ways, roles, rings)
+            IN JudgeRings(ways, exp, rings, W) \cup UNION {JudgeRunValid(exp, nout, nin, rr, runs[k]) : k \in 1..Len(runs)}
   ELSE (IF rings # <<>> THEN {"wrong_area"} ELSE {}) \cup UNION {JudgeRunInvalid(exp, runs[k]) : k \in 1..Len(runs)}
 
 (* ------------------------------------------------------------------ catalogue of simple grid polygons *)
-R0 == 0..G
+(* (a family is only built when it is in use: TLC evaluates constant definitions at start-up) *)
+R0 == IF Kinds = {} THEN {} ELSE 0..G      \* (no catalogue is built where no ring is drawn: trace validation)
 Closed(pts) == pts \o <<pts[1]>>
 Rect(x0, y0, x1, y1) == Closed(<< <<x0, y0>>, <<x1, y0>>, <<x1, y1>>, <<x0, y1>> >>)
-RectSet == {Rect(x0, y0, x1, y1) : <<x0, y0, x1, y1>> \in {q \in R0 \X R0 \X R0 \X R0 : q[1] < q[3] /\ q[2] < q[4]}}
+RectSet == IF "rect" \in Kinds \/ "rectD" \in Kinds THEN
+   {Rect(x0, y0, x1, y1) : <<x0, y0, x1, y1>> \in {q \in R0 \X R0 \X R0 \X R0 : q[1] < q[3] /\ q[2] < q[4]}}
+   ELSE {}
 (* right triangle: the rectangle without corner c *)
 Tri(x0, y0, x1, y1, c) == LET v == << <<x0, y0>>, <<x1, y0>>, <<x1, y1>>, <<x0, y1>> >>
                           IN Closed(SelectSeq(v, LAMBDA p : p # v[c]))
-TriSet == {Tri(q[1], q[2], q[3], q[4], c) : q \in {q \in R0 \X R0 \X R0 \X R0 : q[1] < q[3] /\ q[2] < q[4]}, c \in 1..4}
+TriSet == IF "tri" \in Kinds \/ "triD" \in Kinds THEN
+   {Tri(q[1], q[2], q[3], q[4], c) : q \in {q \in R0 \X R0 \X R0 \X R0 : q[1] < q[3] /\ q[2] < q[4]}, c \in 1..4}
+   ELSE {}
 (* L shape: rectangle with the sub-rectangle at corner c removed; (xm, ym) is the inner corner *)
 LSh(x0, y0, x1, y1, xm, ym, c) ==
    Closed(CASE c = 1 -> << <<x0, y0>>, <<x1, y0>>, <<x1, ym>>, <<xm, ym>>, <<xm, y1>>, <<x0, y1>> >>
             [] c = 2 -> << <<x0, y0>>, <<x1, y0>>, <<x1, y1>>, <<xm, y1>>, <<xm, ym>>, <<x0, ym>> >>
             [] c = 3 -> << <<xm, y0>>, <<x1, y0>>, <<x1, y1>>, <<x0, y1>>, <<x0, ym>>, <<xm, ym>> >>
             [] c = 4 -> << <<x0, y0>>, <<xm, y0>>, <<xm, ym>>, <<x1, ym>>, <<x1, y1>>, <<x0, y1>> >>)
-LSet == {LSh(q[1], q[2], q[3], q[4], q[5], q[6], c) :
-           q \in {q \in R0 \X R0 \X R0 \X R0 \X R0 \X R0 : q[1] < q[5] /\ q[5] < q[3] /\ q[2] < q[6] /\ q[6] < q[4]}, c \in 1..4}
+LSet == IF "L" \in Kinds \/ "LD" \in Kinds THEN
+   {LSh(q[1], q[2], q[3], q[4], q[5], q[6], c) :
+              q \in {q \in R0 \X R0 \X R0 \X R0 \X R0 \X R0 : q[1] < q[5] /\ q[5] < q[3] /\ q[2] < q[6] /\ q[6] < q[4]}, c \in 1..4}
+   ELSE {}
 (* T shape: bar [x0,x1] x [ym,y1] on a stem [xa,xb] x [y0,ym]; the other orientations by reflection/transposition *)
 TUp(x0, x1, xa, xb, y0, ym, y1) ==
    << <<x0, ym>>, <<xa, ym>>, <<xa, y0>>, <<xb, y0>>, <<xb, ym>>, <<x1, ym>>, <<x1, y1>>, <<x0, y1>> >>
 FlipY(pts) == [k \in 1..Len(pts) |-> <<pts[k][1], G - pts[k][2]>>]
 Transp(pts) == [k \in 1..Len(pts) |-> <<pts[k][2], pts[k][1]>>]
-TBase == {TUp(q[1], q[2], q[3], q[4], q[5], q[6], q[7]) :
-            q \in {q \in R0 \X R0 \X R0 \X R0 \X R0 \X R0 \X R0 :
-                     q[1] < q[3] /\ q[3] < q[4] /\ q[4] < q[2] /\ q[5] < q[6] /\ q[6] < q[7]}}
+TBase == IF "T" \in Kinds THEN
+   {TUp(q[1], q[2], q[3], q[4], q[5], q[6], q[7]) :
+               q \in {q \in R0 \X R0 \X R0 \X R0 \X R0 \X R0 \X R0 :
+                        q[1] < q[3] /\ q[3] < q[4] /\ q[4] < q[2] /\ q[5] < q[6] /\ q[6] < q[7]}}
+   ELSE {}
 TSet == {Closed(t) : t \in TBase} \cup {Closed(FlipY(t)) : t \in TBase}
         \cup {Closed(Transp(t)) : t \in TBase} \cup {Closed(Transp(FlipY(t))) : t \in TBase}
 Dia(cx, cy, r) == Closed(<< <<cx - r, cy>>, <<cx, cy - r>>, <<cx + r, cy>>, <<cx, cy + r>> >>)
-DiaSet == {Dia(q[1], q[2], q[3]) : q \in {q \in R0 \X R0 \X (1..G) : q[1] - q[3] >= 0 /\ q[1] + q[3] <= G /\ q[2] - q[3] >= 0 /\ q[2] + q[3] <= G}}
+DiaSet == IF "dia" \in Kinds \/ "diaD" \in Kinds THEN
+   {Dia(q[1], q[2], q[3]) : q \in {q \in R0 \X R0 \X (1..G) : q[1] - q[3] >= 0 /\ q[1] + q[3] <= G /\ q[2] - q[3] >= 0 /\ q[2] + q[3] <= G}}
+   ELSE {}
+(* kite: a quadrilateral from the left to the right border of the grid with single vertices on the borders at the
+   same height (copies shifted by G touch in exactly that point; used as motif of the tiled cases) *)
+KiteSet == IF "kite" \in Kinds THEN
+   {Closed(<< <<0, q[1]>>, <<q[2], q[3]>>, <<G, q[1]>>, <<q[4], q[5]>> >>) :
+                 q \in {q \in R0 \X (1..(G - 1)) \X R0 \X (1..(G - 1)) \X R0 : q[3] < q[1] /\ q[1] < q[5]}}
+   ELSE {}
 (* the same polygon with every lattice point of its boundary as a vertex *)
 EdgePts(a, b) == LET dx == b[1] - a[1]  dy == b[2] - a[2]  g == GCD(Abs(dx), Abs(dy))
                  IN [k \in 1..g |-> <<a[1] + k * (dx \div g), a[2] + k * (dy \div g)>>]
@@ -270,6 +292,7 @@ KindSet(k) == CASE k = "rect" -> RectSet
                 [] k = "L" -> LSet
                 [] k = "T" -> TSet
                 [] k = "dia" -> DiaSet
+                [] k = "kite" -> KiteSet
                 [] k = "rectD" -> RectDSet
                 [] k = "triD" -> TriDSet
                 [] k = "LD" -> LDSet
@@ -281,16 +304,31 @@ Bbox(pts) == LET xs == {pts[k][1] : k \in 1..Len(pts)}  ys == {pts[k][2] : k \in
              IN [x0 |-> CHOOSE v \in xs : \A u \in xs : v <= u, x1 |-> CHOOSE v \in xs : \A u \in xs : v >= u,
                  y0 |-> CHOOSE v \in ys : \A u \in ys : v <= u, y1 |-> CHOOSE v \in ys : \A u \in ys : v >= u]
 BInside(a, b) == a.x0 >= b.x0 /\ a.x1 <= b.x1 /\ a.y0 >= b.y0 /\ a.y1 <= b.y1
+BWithin(a, b) == a.x0 > b.x0 /\ a.x1 < b.x1 /\ a.y0 > b.y0 /\ a.y1 < b.y1
+BSnug(a, b) == a.x0 = b.x0 + 1 /\ a.x1 = b.x1 - 1 /\ a.y0 = b.y0 + 1 /\ a.y1 = b.y1 - 1
 BApart(a, b) == a.x0 >= b.x1 \/ a.x1 <= b.x0 \/ a.y0 >= b.y1 \/ a.y1 <= b.y0
 Candidates(k, mode, ref) ==
    LET all == KindSet(k)
        rb == Bbox(ref)
        c == CASE mode = "any" -> all
+              [] mode = "within" -> {s \in all : BWithin(Bbox(s), rb)}
+              [] mode = "chain" -> {s \in all : BWithin(Bbox(s), rb) /\ BSnug(Bbox(s), rb)}      \* leaves room for the next one
               [] mode = "inside" -> {s \in all : BInside(Bbox(s), rb) /\ Bbox(s) # rb}
-              [] mode = "around" -> {s \in all : BInside(rb, Bbox(s)) /\ Bbox(s) # rb}
+              [] mode = "around" -> {s \in all : BWithin(rb, Bbox(s))}
               [] mode = "apart" -> {s \in all : BApart(Bbox(s), rb)}
               [] mode = "touch" -> {s \in all : {s[j] : j \in 1..Len(s)} \cap {ref[j] : j \in 1..Len(ref)} # {}}
+              [] mode = "touchout" -> {s \in all : BApart(Bbox(s), rb) /\ {s[j] : j \in 1..Len(s)} \cap {ref[j] : j \in 1..Len(ref)} # {}}
+              [] mode = "touchin" -> {s \in all : BInside(Bbox(s), rb) /\ Bbox(s) # rb /\ {s[j] : j \in 1..Len(s)} \cap {ref[j] : j \in 1..Len(ref)} # {}}
               [] mode = "same" -> {ref}
+   IN IF c = {} /\ mode # "chain" THEN all ELSE c      \* (a chain simply ends when nothing fits)
+
+CountSeq == <<1, 2, 2, 2, 3, 3, 4, 4, 4>>      \* weights of the number of rings in simulation
+(* first ring of a case with several rings: "big" = at least 3 x 3, so that there is room for a ring within *)
+FirstCandidates(k, md) ==
+   LET all == KindSet(k)
+       c == IF md \in {"big", "within"} THEN {s \in all : Bbox(s).x1 - Bbox(s).x0 >= 3 /\ Bbox(s).y1 - Bbox(s).y0 >= 3}
+            ELSE IF md = "chain" THEN {s \in all : Bbox(s).x1 - Bbox(s).x0 = G /\ Bbox(s).y1 - Bbox(s).y0 = G}
+            ELSE all
    IN IF c = {} THEN all ELSE c
 
 (* ------------------------------------------------------------------ the case builder *)
@@ -306,20 +344,21 @@ Init == /\ stage = "start" /\ nrings = 0 /\ rings = <<>> /\ kind = "" /\ mode = 
         /\ roles = <<>> /\ nd = 0
 
 Start == /\ stage = "start"
-         /\ nrings' \in 1..MaxRings
+         /\ \E c \in 1..Len(CountSeq) : CountSeq[c] <= MaxRings /\ nrings' = CountSeq[c]
          /\ stage' = "kind"
          /\ UNCHANGED <<rings, kind, mode, refi, mut, bag, exp, style, rpat, rem, ways, cur, stut, roles, nd>>
 
 PickKind == /\ stage = "kind"
             /\ kind' \in Kinds
-            /\ IF rings = <<>> THEN mode' = "any" /\ refi' = 0
-               ELSE mode' \in Modes /\ refi' \in 1..Len(rings)
+            /\ IF rings = <<>> THEN mode' \in (IF nrings > 1 THEN {ModeSeq[1], "big"} ELSE {"any"}) /\ refi' = 0
+               ELSE \E i \in 1..Len(ModeSeq), j \in 1..Len(rings) :
+                      mode' = ModeSeq[i] /\ refi' = IF ModeSeq[i] = "chain" THEN Len(rings) ELSE j
             /\ stage' = "shape"
             /\ UNCHANGED <<nrings, rings, mut, bag, exp, style, rpat, rem, ways, cur, stut, roles, nd>>
 
 RingBag == Flat([k \in 1..Len(rings) |-> ShapeSegs(rings[k])])
 PickShape == /\ stage = "shape"
-             /\ LET c == {s \in (IF rings = <<>> THEN KindSet(kind) ELSE Candidates(kind, mode, rings[refi])) :
+             /\ LET c == {s \in (IF rings = <<>> THEN FirstCandidates(kind, mode) ELSE Candidates(kind, mode, rings[refi])) :
                            Len(RingBag) + Len(s) - 1 <= MaxSegs}
                 IN IF c = {} THEN rings # <<>> /\ rings' = rings /\ stage' = "mut"     \* no room for another ring
                    ELSE /\ \E s \in c : rings' = Append(rings, s)
@@ -355,7 +394,7 @@ Expect == /\ stage = "expect"
 
 Style == /\ stage = "style"
          /\ style' \in Styles
-         /\ rpat' \in (0..3) \X (0..3)
+         /\ rpat' \in RolePats
          /\ rem' = 1..Len(bag) /\ ways' = <<>> /\ cur' = <<>> /\ stut' = FALSE /\ roles' = <<>>
          /\ stage' = "draw"
          /\ UNCHANGED <<nrings, rings, kind, mode, refi, mut, bag, exp, nd>>
@@ -411,12 +450,46 @@ MutGen == <<"none", "none", "none", "none", "none", "none", "dupnode", "drop", "
 MutDraw == <<"none", "drop", "dupseg", "dupnode">>
 MutThm == <<"none", "drop", "dupseg", "dupring", "tripseg">>
 MutNone == <<"none">>
+(* values for the constant ModeSeq *)
+ModeGen == <<"any", "within", "within", "within", "within", "within", "inside", "around", "around", "apart", "apart", "touch", "touch", "same">>
+ModeNest == <<"within", "within", "within", "around", "inside", "touch", "apart">>
+ModeTouch == <<"touchout", "touchout", "touchout", "touchin", "touchin", "touchin", "touch", "apart", "same">>
+MutMild == <<"none", "none", "none", "none", "none", "none", "none", "dupnode", "spike", "tripseg", "drop", "extra", "dupring">>
+ModeTile == <<"within", "touchin", "inside">>
+AllRolePats == (0..3) \X (0..3)
+TwoRolePats == {<<0, 0>>, <<1, 1>>}
+ModeDeep == <<"chain", "chain", "chain", "chain", "chain", "chain", "chain", "within", "apart">>
+ModeChain == <<"chain">>
+ModeAny == <<"any">>
+ModeWithin == <<"within">>
+ModeAll == <<"any", "within", "inside", "around", "apart", "touch", "touchout", "touchin", "same">>
 MutThmQ == <<"none", "drop", "dupring">>
 
+(* ------------------------------------------------------------------ tiled cases *)
+(* A motif S can be repeated along x with period G when it is a valid arrangement, no segment lies on the left or
+   right border and some border point (G, y) of it meets a border point (0, y): the copies then have only such points
+   in common, all degrees stay even, nothing crosses, and the even-odd fill of the chain is the fill of the motif in
+   every copy.  NTouch(S, n) is the number of touching points (degree >= 4) of a chain of n copies. *)
+ShiftSeg(s, d) == << <<s[1][1] + d, s[1][2]>>, <<s[2][1] + d, s[2][2]>> >>
+Chain(S, n) == UNION {{ShiftSeg(s, k * G) : s \in S} : k \in 0..(n - 1)}
+OnBorder(s) == s[1][1] = s[2][1] /\ s[1][1] \in {0, G}
+JoinPts(S) == {y \in 0..G : Deg(S, <<G, y>>) > 0 /\ Deg(S, <<0, y>>) > 0}
+TileOK(S) == ValidArrangement(S) /\ (\A s \in S : ~OnBorder(s)) /\ JoinPts(S) # {}
+TIn(S) == Cardinality({p \in TouchPoints(S) : 0 < p[1] /\ p[1] < G})
+TJoin(S) == Cardinality({y \in 0..G : Deg(S, <<G, y>>) + Deg(S, <<0, y>>) >= 4})
+TEnds(S) == Cardinality({p \in TouchPoints(S) : p[1] = 0 \/ p[1] = G})
+NTouch(S, n) == n * TIn(S) + (n - 1) * TJoin(S) + TEnds(S)
+NMax(S) == (100 - TEnds(S) + TJoin(S)) \div (TIn(S) + TJoin(S))       \* longest chain with <= 100 touching points
+TileNs(S) == {n \in {2, 3, 8, 20, 21, 22, 40, NMax(S) - 1, NMax(S)} : n >= 2 /\ n <= NMax(S)}
+
 (* ------------------------------------------------------------------ export *)
+ExportRec == [G |-> G, rings |-> rings, mut |-> mut, style |-> style, nd |-> nd,
+              segs |-> BagSegments(bag), ways |-> ways, roles |-> roles, exp |-> exp]
 Export == stage = "done" =>
-            PrintT(<<"CASE", ToJson([G |-> G, rings |-> rings, mut |-> mut, style |-> style, nd |-> nd,
-                                     segs |-> BagSegments(bag), ways |-> ways, roles |-> roles, exp |-> exp])>>)
+            IF Tiles
+            THEN LET S == BagSegments(bag)
+                 IN TileOK(S) => PrintT(<<"CASE", ToJson(ExportRec @@ [tiles |-> {[n |-> n, dx |-> G, ntouch |-> NTouch(S, n)] : n \in TileNs(S)}])>>)
+            ELSE PrintT(<<"CASE", ToJson(ExportRec)>>)
 
 (* ------------------------------------------------------------------ design-check invariants *)
 WaysWellFormed == \A w \in 1..Len(ways) : /\ Len(ways[w]) >= 2
@@ -443,6 +516,15 @@ FillIsXor == AtBag /\ mut = "none" =>
                FillY(BagSegments(bag), AllSamples) = XorAll([k \in 1..Len(rings) |-> RingFillY(rings[k], AllSamples)])
 CancelSound == AtBag => FillY(BagSegments(bag), AllSamples)
                           = {I \in AllSamples : Cardinality({i \in 1..Len(bag) : HitsY(bag[i], SP(I))}) % 2 = 1}
+(* the tiling argument, checked on chains of 2 and 3 copies (coordinates up to 3G) *)
+TileTheorem == AtBag /\ TileOK(BagSegments(bag)) =>
+                 LET S == BagSegments(bag)
+                 IN \A n \in {2, 3} :
+                      LET C == Chain(S, n)
+                      IN /\ ValidArrangement(C)
+                         /\ Cardinality(C) = n * Cardinality(S)
+                         /\ Cardinality(TouchPoints(C)) = NTouch(S, n)
+                         /\ \A k \in 0..(n - 1) : {<<I[1] - 2 * k * G, I[2]>> : I \in FillY(C, SampleIdx(k * G, (k + 1) * G))} = FillY(S, AllSamples)
 (* every catalogue polygon is a valid arrangement by itself *)
 CatalogueValid == Theorems /\ stage = "kind" /\ Len(rings) = 1 => ValidArrangement(BagSegments(ShapeSegs(rings[1])))
 
